@@ -263,9 +263,16 @@ pub fn c06(tier: Tier) -> ! {
         v
     };
     let t = run_jobs(&mut run, &jobs, &judge);
+    // real hard and LJ states under the crate's own generator (supplementary: the seeds are a sample)
+    let rr = crate::rsx::real_runs(tier);
+    for (w, c) in rr.c06 {
+        run.fail(None, &w, c);
+    }
+    run.set("real_state_runs", rr.runs);
+    run.set("real_state_steps_judged", rr.steps);
     run.set("max_deviations", tier.pick(1, 2) as u64);
     run.set("exhaustive", true);
-    run.set("explanation", "Every script (index, displacement, threshold, answer per step) with at most max_deviations departures from 4 baseline answer patterns (all better, all invalid, alternating better/invalid, alternating better/slightly worse), plus the full product over a reduced alphabet to depth 3/4, is executed on the real optimiser with 1-3 shared parameters starting on and off their bounds. A reference model tracks every state the run can be in (each proposal accepted or rejected) and requires every proposal to differ from one of them in at most one parameter, bit for bit, and the returned state to be one of them.");
+    run.set("explanation", "Every script (index, displacement, threshold, answer per step) with at most max_deviations departures from 4 baseline answer patterns (all better, all invalid, alternating better/invalid, alternating better/slightly worse), plus the full product over a reduced alphabet to depth 3/4, is executed on the real optimiser with 1-3 shared parameters starting on and off their bounds. A reference model tracks every state the run can be in (each proposal accepted or rejected) and requires every proposal to differ from one of them in at most one parameter, bit for bit, and the returned state to be one of them. Supplementary sampling (labelled as such, it decides nothing on its own): complete real runs of hard and LJ states in all 7 groups under the crate's own seeded generator, every step judged by the same reference model.");
     run.assume("the probe State answers consistently (same parameters, same score); rand 0.7.3 decodes the scripted words as calibrated at start-up");
     run.require(t.accepts > 0 && t.rejects > 0, "both accepted and rejected steps must occur");
     run.finish()
@@ -394,6 +401,13 @@ pub fn c07(tier: Tier) -> ! {
         v
     };
     let t = run_jobs(&mut run, &jobs, &judge);
+    // real states, real generator: every step's decision against the rule with the draw it used
+    let rr = crate::rsx::real_runs(tier);
+    for (w, c) in rr.c07 {
+        run.fail(None, &w, c);
+    }
+    run.set("real_state_runs", rr.runs);
+    run.set("real_state_steps_judged", rr.steps);
     // quantitative clause: the acceptance threshold, measured by replay bisection
     let ds = [1e-6, 1e-3, 0.05, 0.1, 0.5, 1., 5.];
     let kts = [1e-3, 0.01, 0.1, 0.5, 1., 10.];
@@ -531,6 +545,12 @@ pub fn c05(tier: Tier) -> ! {
     for (w, c) in rf.c05 {
         run.fail(None, &w, c);
     }
+    let rr = crate::rsx::real_runs(tier);
+    for (w, c) in rr.c05 {
+        run.fail(None, &w, c);
+    }
+    run.set("real_generator_runs", rr.runs);
+    run.set("real_generator_steps_judged", rr.steps);
     run.set("real_state_starts", rstarts);
     run.set("real_states_visited", rf.states);
     run.set("real_hill_climb_stages_improved", rf.hill_climb_improved);
